@@ -1,10 +1,10 @@
 package interp
 
 import (
-	"runtime"
 	"fmt"
 	"go/types"
 	"os"
+	"runtime"
 	"sort"
 	"strings"
 	"sync"
@@ -17,27 +17,32 @@ import (
 
 // Config controls one harness exploration.
 type Config struct {
-	Params       map[string]int
-	MaxSteps     int64
-	MaxDepth     int
-	MaxDecisions int
-	MaxFanout    int
-	MaxPaths     int64
-	ByteDomains  bool
-	Intervals    bool
-	TrackStores  bool
-	PermuteMaps  bool
+	Params        map[string]int
+	MaxSteps      int64
+	MaxDepth      int
+	MaxDecisions  int
+	MaxFanout     int
+	MaxPaths      int64
+	ByteDomains   bool
+	Intervals     bool
+	TrackStores   bool
+	PermuteMaps   bool
 	PermuteRanges int
-	ConfirmPaths bool // one solver query per finished path (certified model)
-	SolverKind   string
-	TimeoutMs    int
-	Workers      int
-	VolatilePkgs []string // package path prefixes whose init is re-run for every path
-	StablePkgs   map[string]bool // stdlib packages whose init runs once per worker
-	SampleEvery  int // keep every k-th finished path as a validation sample
-	Seed         int64
-	Debug        bool
-	Deadline     time.Time
+	ConfirmPaths  bool // one solver query per finished path (certified model)
+	SolverKind    string
+	TimeoutMs     int
+	Workers       int
+	VolatilePkgs  []string        // package path prefixes whose init is re-run for every path
+	StablePkgs    map[string]bool // stdlib packages whose init runs once per worker
+	SampleEvery   int             // keep every k-th finished path as a validation sample
+	Seed          int64
+	Debug         bool
+	Deadline      time.Time
+	// StopAfterViolations: once this many violating paths (not counting the
+	// assertion ids in IgnoreForStop: recorded known findings) have been seen,
+	// no further paths are started: the verdict of the harness is settled.
+	StopAfterViolations int
+	IgnoreForStop       map[string]bool
 }
 
 func (c *Config) runsInit(path string) bool {
@@ -57,14 +62,14 @@ func (c *Config) isVolatile(path string) bool {
 }
 
 type Stats struct {
-	Paths, PathsOK, Infeasible, Unenc, Bound, GoPanics int64
+	Paths, PathsOK, Infeasible, Unenc, Bound, GoPanics     int64
 	Decisions, DomainDecided, BranchQueries, BranchUnknown int64
-	Asserts, AssertQueries, AssertProved, AssertUnknown int64
-	ConfirmQueries, ConfirmBad int64
-	Steps int64
-	Inconclusive int64
-	ConcreteAsserts int64
-	StubViolations int64
+	Asserts, AssertQueries, AssertProved, AssertUnknown    int64
+	ConfirmQueries, ConfirmBad                             int64
+	Steps                                                  int64
+	Inconclusive                                           int64
+	ConcreteAsserts                                        int64
+	StubViolations                                         int64
 }
 
 func (s *Stats) add(o *Stats) {
@@ -92,16 +97,16 @@ func (s *Stats) add(o *Stats) {
 
 // PathResult is what one finished path reports.
 type PathResult struct {
-	Outcome   string // ok, panic, infeasible, unencodable, bound
-	Msg       string
-	Vector    [][2]interface{} // nondet name, value in call order
-	Digest    []string
-	Covers    []string
-	Notes     []string
-	Violations []Violation
-	Foreign   []string
-	Decisions int
-	Steps     int64
+	Outcome      string // ok, panic, infeasible, unencodable, bound
+	Msg          string
+	Vector       [][2]interface{} // nondet name, value in call order
+	Digest       []string
+	Covers       []string
+	Notes        []string
+	Violations   []Violation
+	Foreign      []string
+	Decisions    int
+	Steps        int64
 	Unconfirmed  bool // the solver gave no verdict on the finished path condition: no certified model
 	StubDiverged bool // an uninterpreted conversion's error flag differs from the real function on the model's bytes
 }
@@ -117,25 +122,28 @@ type Explorer struct {
 	active int
 	stop   bool
 	// results
-	Stats     Stats
-	Violations []PathResult
-	Samples   []PathResult
-	Covers    map[string]int64
-	Unenc     map[string]int64
-	Bounds    map[string]int64
-	Panics    map[string]int64
-	FuncsSeen map[string]bool
-	SolverWall time.Duration
-	SolverLongest time.Duration
+	Stats                                                              Stats
+	Violations                                                         []PathResult
+	Samples                                                            []PathResult
+	Covers                                                             map[string]int64
+	Unenc                                                              map[string]int64
+	Bounds                                                             map[string]int64
+	Panics                                                             map[string]int64
+	FuncsSeen                                                          map[string]bool
+	SolverWall                                                         time.Duration
+	SolverLongest                                                      time.Duration
 	SolverQueries, SolverSat, SolverUnsat, SolverUnknown, SolverErrors int
-	finished  int64
-	StubDiverged int64
-	Unconfirmed  int64
-	canon     int
-	violPerID map[string]int
-	UnknownAsserts map[string]int64
-	BoundPaths []PathResult // paths that exhausted the step/depth budget, with the model reached so far
-	Truncated bool
+	finished                                                           int64
+	StubDiverged                                                       int64
+	Unconfirmed                                                        int64
+	canon                                                              int
+	violPerID                                                          map[string]int
+	stopCount                                                          int
+	StoppedOnViolations                                                bool
+	UnknownAsserts                                                     map[string]int64
+	UnencPaths                                                         []PathResult // paths the engine could not carry on with, with the model reached so far
+	BoundPaths                                                         []PathResult // paths that exhausted the step/depth budget, with the model reached so far
+	Truncated                                                          bool
 }
 
 type Worker struct {
@@ -312,6 +320,9 @@ func (ex *Explorer) record(w *Worker, r *PathResult) {
 	switch r.Outcome {
 	case "unencodable":
 		ex.Unenc[r.Msg]++
+		if len(r.Vector) > 0 && ex.Unenc[r.Msg] <= 3 && len(ex.UnencPaths) < 12 {
+			ex.UnencPaths = append(ex.UnencPaths, *r)
+		}
 	case "bound":
 		ex.Bounds[r.Msg+" "+strings.Join(r.Notes, ";")+" "+fmt.Sprint(r.Vector)]++
 		if len(r.Vector) > 0 && len(ex.BoundPaths) < 12 {
@@ -326,6 +337,14 @@ func (ex *Explorer) record(w *Worker, r *PathResult) {
 		}
 		id := r.Violations[0].AssertID
 		ex.violPerID[id]++
+		if !ex.Cfg.IgnoreForStop[id] {
+			ex.stopCount++
+			if ex.Cfg.StopAfterViolations > 0 && ex.stopCount >= ex.Cfg.StopAfterViolations {
+				ex.stop = true
+				ex.Truncated = true
+				ex.StoppedOnViolations = true
+			}
+		}
 		if ex.violPerID[id] <= 30 && len(ex.Violations) < 600 {
 			ex.Violations = append(ex.Violations, *r)
 		}
